@@ -1,13 +1,18 @@
 import OmplModel.Model.Motion
+import OmplModel.Model.Dubins
+import OmplModel.Model.ReedsShepp
 import OmplModel.Driver.Common
 /-!
 Line-protocol driver for the motion-check model (see harness/motion.cpp for the grammar).
 
 The segment count `n` is computed by the model itself (generic `segCount` at `Float`,
 `compoundSegCount` over the components) for the spaces whose distance is elementary (R^n, SO(2)
-and compounds of them); for Dubins / Reeds-Shepp / Owen the distance is C14's business and `n`
-(and, for Owen, whether `getPath` succeeded) comes from a `hint` line; the harness prints the real
-`n` on every call, so a wrong hint shows up as a disagreement.
+and compounds of them) and, since round 4, for Dubins, symmetric Dubins and Reeds-Shepp as well: the
+distance is computed by C14's bit-exact models (`OmplModel.Dubins.distance`, `OmplModel.RS.rsDistance`)
+and `L` is the SE(2) extent `1·|R² box| + 0.5·π` times the fraction, so no `hint` is needed there.
+For Owen / Vana / VanaOwen (and the constrained traversal) `n` and whether a path exists still come
+from a `hint` line; the harness prints the real `n` on every call, so a wrong hint shows up as a
+disagreement.
 -/
 namespace OmplModel.Driver.MotionDrv
 open OmplModel.Motion OmplModel.Driver
@@ -105,6 +110,10 @@ structure St where
   box : Option (List (Float × Float)) := none
   hintN : Nat := 0
   hintPath : Bool := true
+  /-- `some (isRS, symmetric)`: a Dubins-type space whose distance the model computes itself -/
+  car : Option (Bool × Bool) := none
+  rho : Float := 1.0
+  topFac : Nat := 1
   /-- `space=proj`: the constrained validator; `hintPath` is then the traversal's `reached` and `hintSat` is `isSatisfied(s2)` -/
   constrained : Bool := false
   hintSat : Bool := true
@@ -150,9 +159,9 @@ def init (ts : List String) : Option St :=
     | "se2", [_, a, b] => mk (some (.cmpd [.rv 2 a, .so2 b])) 3 .discrete
     | "cmpd", [_, a, b, c] => mk (some (.cmpd [.rv 2 a, .so2 b, .rv 1 c])) 4 .discrete
     | "cmpd2", [_, _, a, b, c] => mk (some (.cmpd [.cmpd [.rv 2 a, .so2 b], .rv 1 c])) 4 .discrete
-    | "dubins", [_] => mk none 3 .dubins
-    | "dubinssym", [_] => mk none 3 .dubins
-    | "rs", [_] => mk none 3 .reedsShepp
+    | "dubins", [k] => (mk none 3 .dubins).map (fun st => { st with car := some (false, false), rho := _rho, topFac := k })
+    | "dubinssym", [k] => (mk none 3 .dubins).map (fun st => { st with car := some (false, true), rho := _rho, topFac := k })
+    | "rs", [k] => (mk none 3 .reedsShepp).map (fun st => { st with car := some (true, false), rho := _rho, topFac := k })
     | "owen", [_] => mk none 4 .dubins3D
     | "proj", [_] => (mk none 3 .discrete).map (fun st => { st with constrained := true })
     | "vana", [_] => mk none 5 .dubins3D
@@ -254,9 +263,20 @@ def step (st : St) (ts : List String) : St × String :=
       | some (a, rest2) =>
         match state? st rest2 with
         | some (b, []) =>
-          let n := match st.sp with
-            | some sp => sp.seg st.ctx a b
-            | none => st.hintN
+          -- Dubins-type spaces: StateSpace::validSegmentCount with the curve length from C14's models and
+          -- longestValidSegment_ = (1.0 * extent(R^2 box) + 0.5 * pi) * fraction (CompoundStateSpace::getMaximumExtent)
+          let carN : Option Nat := match st.car, a, b with
+            | some (isRS, sym), [x1, y1, t1], [x2, y2, t2] =>
+              let p1 : OmplModel.Dubins.Pose Float := ⟨x1, y1, t1⟩
+              let p2 : OmplModel.Dubins.Pose Float := ⟨x2, y2, t2⟩
+              let d := if isRS then OmplModel.RS.rsDistance st.rho p1 p2 else OmplModel.Dubins.distance st.rho sym p1 p2
+              let ext := (0.0 + 1.0 * rvExtent st.ctx 2 0.0) + 0.5 * pi
+              d.map (fun dist => segCount st.topFac dist (ext * st.ctx.frac))
+            | _, _, _ => none
+          let n := match st.sp, carN with
+            | some sp, _ => sp.seg st.ctx a b
+            | none, some k => k
+            | none, none => st.hintN
           -- scripted predicate: an index set, or a box evaluated on the model's own interpolants
           let invl : List Nat := match st.box, st.sp with
             | some bx, some sp =>
